@@ -107,12 +107,12 @@ def b60(rng, df, force=None):
                 if rng.random() < 0.2:
                     altcode = 0
                 else:
-                    n = rng.choice((rng.randrange(40, 1800), rng.randrange(1800, 2048), 2047))   # up to the top of the Q range (50175 ft)
+                    n = rng.choice((rng.randrange(40, 1800), rng.randrange(1800, 2048), 2047, rng.randrange(0, 41)))   # below sea level (-1000 ft) up to the top of the Q range (50175 ft)
                     altft = n * 25 - 1000
                     altcode = ralt.q_code13(n)
                     if rng.random() < 0.3:
                         # the same kind of register under a Gillham (100-ft) altitude code, as older encoders send it
-                        altft = rng.choice((rng.randrange(0, 451), rng.randrange(451, 601))) * 100
+                        altft = rng.choice((rng.randrange(0, 451), rng.randrange(451, 601), rng.randrange(-12, 0))) * 100
                         altcode = ralt.gillham_code13(altft)
                     elif rng.random() < 0.2:
                         # a metric header altitude (M = 1: 12 bits of metres); the bit in the Q position is then an ordinary value bit
@@ -121,7 +121,8 @@ def b60(rng, df, force=None):
                         altcode = ralt.m_code13(nm)
                     m = rng.choice((0, 250, rng.randint(40, 250)))
                     cas = isa.mach2cas(m * 2.048 / 512.0, altft * isa.FT) / isa.KTS
-                    ias = int(round(cas + rng.uniform(-9, 9)))
+                    # ... within 10 kt mostly, and up to 18.4 kt (the rule allows 20; one knot is left for the ISA constants)
+                    ias = int(round(cas + (rng.uniform(-9, 9) if rng.random() < 0.6 else rng.choice((-1, 1)) * rng.uniform(15, 18.4))))
                     if not 0 <= ias <= 500:
                         continue
                     mb = put(put(mb, 25, 34, m), 14, 23, ias)
